@@ -146,9 +146,10 @@ func c01Attribute(run *raRun, program, ref string) (site, finding, note string) 
 			if (e.Site != "join" && e.Site != "join:cmdline") || len(e.In) == 0 {
 				continue
 			}
-			union := "(?:" + strings.Join(e.In, ")|(?:") + ")"
+			// a join is used inside concatenations, so its inputs and its output are compared as whole-string languages
+			union := "^(?:(?:" + strings.Join(e.In, ")|(?:") + "))$"
 			pu, e1 := relang.CompileWith(union, relang.Rassemble, false, false)
-			po, e2 := relang.CompileWith(e.Out, relang.Rassemble, false, false)
+			po, e2 := relang.CompileWith("^(?:"+e.Out+")$", relang.Rassemble, false, false)
 			if e1 != nil || e2 != nil {
 				continue
 			}
